@@ -123,10 +123,91 @@ def range_count(S):
 
 
 # ---------------------------------------------------------------------------
+def async_assembly_model(ctx, repo):
+    """GeckoAsyncStructure.get on a model connection (witness scenarios): the structure is built by its constructor,
+    every attempt's request is a stand-in whose wait_for_response delivers a scripted list of (sequence, next, data)
+    segments and then times out.  What is installed must be the spa's bytes for the requested range, or nothing."""
+    from ..absint import ClassRef, Interp, Native, Obj, Opaque, PyRaise, Undecided
+    fi = repo.method("GeckoAsyncStructure", "get")
+    a, b, c = b"A" * 39, b"B" * 39, b"C" * 22
+    full = [(0, 1, a), (1, 2, b), (2, 0, c)]
+    T = "timeout"
+    cases = [
+        ("clean", [full], 3, True, a + b + c, 1, "a complete in-order chain"),
+        ("partial-then-retry", [[(0, 1, a), (1, 2, b), T], full], 3, True, a + b + c, 2, "an attempt that delivered two segments and then timed out, followed by a complete attempt"),
+        ("middle-segment-lost", [[(0, 1, a), (2, 0, c)], full], 3, True, a + b + c, 2, "an attempt whose middle segment was lost (final segment out of sequence), followed by a complete attempt"),
+        ("duplicate-segment", [[(0, 1, a), (0, 1, a), (1, 2, b), (2, 0, c)]], 3, True, a + b + c, 1, "a chain in which the first segment arrives twice"),
+        ("first-lost-then-final", [[(1, 2, b), (2, 0, c)], full], 3, True, a + b + c, 2, "an attempt whose first segment was lost, followed by a complete attempt"),
+        ("never-answered", [[T], [T]], 2, False, None, 2, "two attempts without any answer (budget 2)"),
+        ("only-partial-ever", [[(0, 1, a), T], [(0, 1, a), (1, 2, b), T]], 2, False, None, 2, "two attempts that each time out part-way (budget 2)"),
+    ]
+    start = 100
+    for key, script, budget, want_ok, want_data, want_sends, what in cases:
+        interp = Interp(repo, max_depth=10)
+        try:
+            st = interp.apply(ClassRef(repo.cls("GeckoAsyncStructure")), [Native(lambda a_, k_: None), Native(lambda a_, k_: None)], {})
+        except (PyRaise, Undecided) as e:
+            raise AnalysisError(f"GeckoAsyncStructure(...) cannot be constructed by interpretation: {e}")
+        installs, sends = [], []
+        attempts = [list(x) for x in script]
+        made = []
+
+        def create(a_, k_, attempts=attempts, made=made):
+            feed = attempts.pop(0) if attempts else [T]
+            req = Obj(None, {"start": start, "sequence": None, "next": None, "data": None}, name=f"request{len(made)}")
+
+            def wait(a2, k2, req=req, feed=feed):
+                if not feed or feed[0] == T:
+                    return False
+                seq, nxt, data = feed.pop(0)
+                req.attrs.update(sequence=seq, next=nxt, data=data)
+                return True
+            req.attrs["wait_for_response"] = Native(wait, "wait_for_response")
+            made.append(req)
+            return req
+        proto = Obj(None, {"Lock": Obj(None, name="lock"), "queue_send": Native(lambda a_, k_: sends.append(a_[0]), "queue_send")}, name="protocol")
+
+        def hook(it, node, callee, args, kwargs):
+            fn = getattr(node, "func", None)
+            if isinstance(fn, ast.Attribute) and fn.attr == "replace_status_block_segment" and isinstance(fn.value, ast.Name) and fn.value.id == "self":
+                installs.append((args[0], bytes(args[1]) if isinstance(args[1], (bytes, bytearray)) else args[1]))
+                return None
+            if isinstance(fn, (ast.Name, ast.Attribute)) and (getattr(fn, "id", None) == "config_sleep" or getattr(fn, "attr", None) in ("config_sleep", "sleep")):
+                return None
+            return NotImplemented
+        interp.call_hook = hook
+        try:
+            interp.steps = 0
+            res = interp.call(fi, st, [proto, Native(create, "create_func"), budget])
+        except PyRaise as e:
+            res = f"raises {e.what}"
+        except Undecided as e:
+            if "loop bound" in str(e) or "step budget" in str(e):
+                ctx.ob("R5", f"{fi.qual}::model::{key}::terminates", False,
+                       f"{fi.qual} given {what} with a budget of {budget} does not finish: {len(sends)} transmissions and still going - the number of attempts is not bounded by the retry budget", fi.loc)
+                continue
+            raise AnalysisError(f"{fi.qual}: cannot interpret: {e}")
+        ok = (res is want_ok) and len(sends) == want_sends and all(s is made[i] for i, s in enumerate(sends)) and \
+            (installs == ([(start, want_data)] if want_ok else []))
+        shown = [(o, (len(d), d[:1] + b".." + d[-1:]) if isinstance(d, bytes) else d) for o, d in installs]
+        ctx.ob("R3", f"{fi.qual}::model::{key}", ok,
+               f"{fi.qual} given {what}: returns {res!r} after {len(sends)} transmission(s) and installs {shown}; expected {want_ok} after {want_sends} transmission(s), installing "
+               f"{'exactly the ' + str(len(want_data)) + ' bytes of the chain at offset ' + str(start) if want_ok else 'nothing'}",
+               fi.loc, sample={"rule": "R3", "scenario": key, "result": str(res), "sends": len(sends), "installed": [str(x) for x in shown]})
+
+
 def async_assembly(ctx, repo):
+    async_assembly_model(ctx, repo)
     fi = repo.own_method("GeckoAsyncStructure", "get")
     g = cfg_of(fi)
     key = fi.qual
+    heads_ = [h for h in __import__("vlib.pathrules", fromlist=["loop_heads"]).loop_heads(g)]
+    appends0 = [(n, c) for n, c in calls_named(g, "append")]
+    if not calls_named(g, INSTALL) or not appends0 or len(heads_) < 2:
+        # the assembly was restructured (helpers that cannot be inlined, other containers): the path rules below do
+        # not apply to this shape; the model scenarios above carry the verdict
+        ctx.note(f"{fi.qual}: install/append/loop shape not recognised - decided on the model scenarios only")
+        return
     r = retry_loop_rules(ctx, repo, fi, "R5", "protocol")
     if r is None:
         return
@@ -134,8 +215,8 @@ def async_assembly(ctx, repo):
     installs = calls_named(g, INSTALL)
     ctx.floor("R1", f"{key} install sites", len(installs), 1)
     appends = [(n, c) for n, c in calls_named(g, "append") if c.args and ast.unparse(c.args[0]) == f"{req}.data"]
-    ctx.ob("R2", f"{key}::accumulator", len(appends) == 1, f"{fi.qual}: expected one accumulator appended with {req}.data, found {len(appends)}", fi.loc)
     if len(appends) != 1:
+        ctx.note(f"{fi.qual}: accumulator not recognised - decided on the model scenarios only")
         return
     A, ac = appends[0]
     acc = receiver(ac)
@@ -486,6 +567,10 @@ def check(ctx):
     ctx.rule("R5", "bounded attempts: async retry loop has a strict variant with one fresh send per attempt; sync resends go through the counted retry() whose refusal raises")
     ctx.rule("R6", "simulator chain: modulus of `next` equals the number of segments for every length (residue-indexed affine domain, all residues mod the segment size), header/payload slices per segment")
     async_assembly(ctx, repo)
+    # the completed assembler keeps its segment list until the engine's clean-up removes the handler: the engine must
+    # not dispatch a second datagram before that (engine model, vlib/enginemodel.py)
+    from ..enginemodel import engine_obligations
+    engine_obligations(ctx.borrowed("R4", "C20", key_prefix="GeckoUdpSocket._process_received_data"), repo, "R1", "R2", "R3", "R4")
     sync_assembly(ctx, repo)
     simulator_chain(ctx, repo)
     # both install functions: swap then notify is C03; here: who may install
